@@ -377,8 +377,10 @@ func (a *EpochBitmapAllocator) MarshalJSON() ([]byte, error) {
 	a.mu.RLock()
 	defer a.mu.RUnlock()
 
-	ones, bits := a.mask.Size()
-	baseNetwork := fmt.Sprintf("%s/%d", a.baseIP.String(), ones+(bits-a.prefixLength))
+	// The pool's own network, so that UnmarshalJSON recomputes the same size
+	// for any allocation prefix length
+	ones, _ := a.mask.Size()
+	baseNetwork := fmt.Sprintf("%s/%d", a.baseIP.String(), ones)
 
 	state := EpochBitmapState{
 		BaseNetwork:    baseNetwork,
